@@ -63,8 +63,16 @@ def _shape(cfg):
 
 
 def _call(cfg, pts, sigma):
+    import torch
     from sleap_nn.data.confidence_maps import generate_confmaps, generate_multiconfmaps
     hw = (cfg["H"], cfg["W"])
+    # history: the result must not depend on earlier calls.  Each call is preceded by one with a DIFFERENT geometry that yields the same grid
+    # shape (image and stride doubled, other sigma, fixed keypoints) -- anything remembered from it (a cache keyed too coarsely) shows below.
+    decoy = torch.full(tuple(pts.shape), 1.0)
+    if cfg["variant"] == "single":
+        generate_confmaps(decoy, (2 * cfg["H"], 2 * cfg["W"]), 3.25, 2 * cfg["stride"])
+    else:
+        generate_multiconfmaps(decoy, (2 * cfg["H"], 2 * cfg["W"]), cfg["num_instances"], 3.25, 2 * cfg["stride"], is_centroids=cfg["variant"] == "centroid")
     if cfg["variant"] == "single":
         return generate_confmaps(pts, hw, sigma, cfg["stride"])
     return generate_multiconfmaps(pts, hw, cfg["num_instances"], sigma, cfg["stride"], is_centroids=cfg["variant"] == "centroid")
